@@ -510,7 +510,7 @@ func opConn(args []string) (out string) {
 			r.rawK[seq] = f[1]
 			r.mu.Unlock()
 			// what the property expects of this frame (classified with the library's own ReadPDU)
-			if p, err := pdu.ReadPDU(bytes.NewReader(b)); err == nil {
+			if p, err := safeReadPDU(b); err == nil {
 				fedUnsol = append(fedUnsol, fmt.Sprintf("%dp%s", seq, f[1]))
 			} else if p != nil {
 				fedBad = append(fedBad, seq)
@@ -747,6 +747,7 @@ type connProfile struct {
 	events              int
 	frag                bool
 	raw                 bool
+	lateAnswer          bool
 }
 
 // genConnScenario builds one scenario line.  It tracks enough abstract state to avoid the situations in which Go's
@@ -790,6 +791,11 @@ func genConnScenario(r *gen.Rng, p connProfile) string {
 		add("s", 1)
 	}
 	var ev []string
+	if p.lateAnswer && len(cs) > 0 && cs[0].kind == "s" && cs[0].seq > 0 && cs[0].after < 0 {
+		// a call that gives up after its request went out: whatever arrives for its number later matches no outstanding request
+		ev = append(ev, "sub0", "wret0", "dl0")
+		cs[0].stage, cs[0].ownDon = 3, true
+	}
 	connDone, readEnded, drain, broken, watchGone := false, false, true, false, false
 	offeringBlocked := false
 	boxedHeld := func() bool {
@@ -941,7 +947,7 @@ func genConnScenario(r *gen.Rng, p connProfile) string {
 			frame := rawMutatedFrame(r, int32(newSeq()))
 			unsolK++
 			ev = append(ev, fmt.Sprintf("raw:%d:%s", unsolK, canon.Hex(frame)))
-			if pp, err := pdu.ReadPDU(bytes.NewReader(frame)); err == nil {
+			if pp, err := safeReadPDU(frame); err == nil {
 				if !drain && !watchGone {
 					offeringBlocked = true
 					if connDone {
@@ -1147,7 +1153,7 @@ func init() {
 	}
 	gens["C16"] = func(r *gen.Rng, tier string, emit func(string)) {
 		for i := 0; i < scale(tier, 300, 1500); i++ {
-			emit(genConnScenario(r, connProfile{submit: r.Range(0, 3), unsolPct: 14, badPct: 14, drainPct: 4, teardownPct: 3, events: r.Range(5, 24), frag: true, raw: true}))
+			emit(genConnScenario(r, connProfile{submit: r.Range(0, 3), unsolPct: 14, badPct: 14, drainPct: 4, teardownPct: 3, events: r.Range(5, 24), frag: true, raw: true, lateAnswer: r.Chance(25)}))
 		}
 	}
 }
@@ -1309,6 +1315,9 @@ func opConnBurst(args []string) string {
 // rawMutatedFrame: a representable PDU of a random type, marshalled, then damaged in its body; the header keeps a
 // known command_id, the given sequence number and the real length.
 func rawMutatedFrame(r *gen.Rng, seq int32) []byte {
+	if r.Chance(30) {
+		return udhFrame(r, seq)
+	}
 	for {
 		f, _ := validFrame(r, gen.Representable)
 		if len(f) > 260 {
@@ -1325,4 +1334,49 @@ func rawMutatedFrame(r *gen.Rng, seq int32) []byte {
 		putBE32(g, uint32(len(g)))
 		return g
 	}
+}
+
+// udhFrame: a deliver_sm / submit_sm with the UDH indicator set whose sm_length, UDHL and element lengths are chosen
+// independently of one another (consistent, too short, too long): the user-data-header decoder's length arithmetic.
+func udhFrame(r *gen.Rng, seq int32) []byte {
+	body := []byte{0, 0, 0, 0, 0, 0, 0, byte(r.Pick(0x40, 0x40, 0x43, 0xC0)), 0, 0, 0, 0, 0, 0, byte(r.Pick(0, 0, 4, 8)), 0}
+	var ud []byte
+	udhl := r.Pick(0, 1, 2, 3, 5, 5, 6, 7, 10, 255)
+	ud = append(ud, byte(udhl))
+	for len(ud) < r.Pick(1, 3, 6, 7, 8, 12) {
+		switch r.Intn(3) {
+		case 0:
+			ud = append(ud, 0x00, 0x03, byte(r.Intn(256)), 2, byte(r.Range(0, 3)))
+		case 1:
+			ud = append(ud, 0x08, 0x04, 0, byte(r.Intn(256)), 2, 1)
+		default:
+			ud = append(ud, byte(r.Pick(0, 8, 0x24)), byte(r.Pick(0, 1, 3, 4, 200)))
+			ud = append(ud, r.Bytes(r.Intn(4))...)
+		}
+	}
+	ud = append(ud, r.Bytes(r.Pick(0, 0, 2, 5))...)
+	smLen := r.Pick(len(ud), len(ud), len(ud), 0, 1, 2, 3, len(ud)-1, len(ud)+1, 255)
+	if smLen < 0 {
+		smLen = 0
+	}
+	body = append(body, byte(smLen))
+	body = append(body, ud...)
+	if r.Chance(20) {
+		body = append(body, 0x02, 0x04, 0x00, 0x01, 0x41) // a TLV behind the short message
+	}
+	f := make([]byte, 16, 16+len(body))
+	putBE32(f, uint32(16+len(body)))
+	putBE32(f[4:], uint32(r.Pick(5, 4)))
+	putBE32(f[12:], uint32(seq))
+	return append(f, body...)
+}
+
+// safeReadPDU classifies a frame with the library's own decoder; a panic counts as an undecodable body.
+func safeReadPDU(b []byte) (p interface{}, err error) {
+	defer func() {
+		if e := recover(); e != nil {
+			p, err = new(pdu.GenericNACK), fmt.Errorf("panic: %v", e)
+		}
+	}()
+	return pdu.ReadPDU(bytes.NewReader(b))
 }
